@@ -350,3 +350,196 @@ def check_class(prop, tier, replay):
 
 
 REGISTRY["C15"] = check_class
+
+
+# ---------------------------------------------------------------- C17 -------
+CG_CONFIGS = [("gcc", "-O0", True), ("gcc", "-O2", True), ("gcc", "-Os", True),
+              ("gcc", "-O0", False), ("gcc", "-O2", False), ("gcc", "-Os", False)]
+
+
+def _max_stack(datafile):
+    """deepest static stack over all call paths (python DFS over the extracted graph; TLC checks the bound)"""
+    txt = open(datafile).read()
+    funcs = set(re.findall(r'"([^"]+)"', re.search(r"Funcs == \{(.*?)\}", txt).group(1)))
+    edges = re.findall(r'<<"([^"]+)", "([^"]+)">>', re.search(r"Edges == \{(.*)\}", txt).group(1))
+    at = set(re.findall(r'"([^"]+)"', re.search(r"AddressTaken == \{(.*?)\}", txt).group(1)))
+    stack = {k: int(v) for k, v in re.findall(r'f = "([^"]+)" -> (\d+)', re.search(r"Stack == (.*)", txt).group(1))}
+    succ = {}
+    for a, b in edges:
+        for t in (at if b == "__indirect_call" else [b]):
+            succ.setdefault(a, set()).add(t)
+    best = (0, [])
+    def dfs(f, path, tot):
+        nonlocal best
+        if f in path or len(path) > 60: return
+        tot2 = tot + stack.get(f, 0); path2 = path + [f]
+        if tot2 > best[0]: best = (tot2, path2)
+        for g in succ.get(f, ()):
+            if g in funcs: dfs(g, path2, tot2)
+    for f in funcs: dfs(f, [], 0)
+    return best
+
+
+def check_callgraph(prop, tier, replay):
+    t0 = time.time()
+    stages = []; nviol = 0
+    base = os.path.join(OUT, prop); shutil.rmtree(base, ignore_errors=True); os.makedirs(base)
+    for cc, opt, wprint in CG_CONFIGS:
+        name = "%s%s%s" % (cc, opt, "-print" if wprint else "-noprint")
+        d = os.path.join(base, name); os.makedirs(d)
+        for src in vlib.LIB_C:
+            b = os.path.basename(src)[:-2]
+            r = subprocess.run("%s -std=c99 %s %s -I%s/include -fstack-usage -fcallgraph-info=su,da -fdump-ipa-cgraph -c %s/%s -o %s/%s.o"
+                               % (cc, opt, "-DBINSON_PARSER_WITH_PRINT" if wprint else "", vlib.REPO, vlib.REPO, src, d, b),
+                               shell=True, capture_output=True, text=True, cwd=d)
+            if r.returncode != 0:
+                raise Infra("repository source %s does not compile (%s): %s" % (src, name, r.stderr[-1500:]))
+        r = subprocess.run("python3 %s/bin/ci2tla.py %s binson_parser binson_writer > %s/CallGraphData.tla" % (VERIF, d, d), shell=True, capture_output=True, text=True)
+        if r.returncode != 0:
+            raise Infra("extraction failed: " + r.stderr[-1500:])
+        shutil.copy(os.path.join(SPEC, "CallGraph.tla"), d); shutil.copy(os.path.join(SPEC, "CallGraph.cfg"), d)
+        cmd = "cd %s && timeout 300 %s > tlc.log 2>&1" % (d, vlib.tlc_cmd("CallGraph.tla", "CallGraph.cfg", workers=4, metadir=os.path.join(d, "meta"), heap="2g"))
+        subprocess.run(cmd, shell=True)
+        shutil.rmtree(os.path.join(d, "meta"), ignore_errors=True)
+        log_txt = open(os.path.join(d, "tlc.log")).read()
+        tl = vlib.parse_tlc_log(log_txt)
+        mx = _max_stack(os.path.join(d, "CallGraphData.tla"))
+        st = {"stage": name, "kind": "extracted call-graph model", "states": tl["distinct"], "transitions": tl["states"], "depth": tl["depth"],
+              "max_static_stack_bytes": mx[0], "deepest_path": mx[1], "violations": 0, "exhaustive": True,
+              "samples": ["%s: %d bytes along %s" % (name, mx[0], " > ".join(mx[1]))]}
+        bad = None
+        if tl["violated"]: bad = "invariant %s violated" % tl["violated"]
+        elif "Assumption" in log_txt and "is false" in log_txt: bad = "the library owns writable static data (assumption NoWritableStatics is false)"
+        elif not tl["ok"]:
+            raise Infra("TLC failed on the extracted call graph (%s): %s" % (name, tl["error"]))
+        if bad:
+            st["violations"] = 1; nviol += 1
+            print("VIOLATION property=C17 replay=%s/CallGraphData.tla" % d)
+            print("  detail: %s: %s (see %s/tlc.log)" % (name, bad, d))
+        stages.append(st)
+    return finish(prop, tier, stages, t0, ["gcc 12 -fcallgraph-info/-fstack-usage/-fdump-ipa-cgraph, nm and size describe the object code faithfully",
+                                            "an indirect call targets an address-taken library function or the opaque user callback",
+                                            "libc functions called (memset memcmp memmove strlen snprintf printf putchar) do not allocate on behalf of the library"])
+
+
+REGISTRY["C17"] = check_callgraph
+
+
+# ---------------------------------------------------------------- C18 -------
+import hashlib
+from concurrent.futures import ThreadPoolExecutor
+
+C18_CORPUS = {
+    # engine: (replayer, prefix, [(module, cfg, overrides)])
+    "parser": ("replay_parser", "BEH ", [
+        ("MC_Nav.tla", "MC_Nav.cfg", _nav(2, 3, "ValsAll", "NamesRich", "LookRich", "OpsAll", "RootsOA")),
+        ("MC_Nav.tla", "MC_Nav.cfg", _nav(3, 3, "ValsInt1", "NamesAB", "LookAB", "OpsReuse", "RootsOA")),
+        ("MC_Stream.tla", "MC_Stream.cfg", dict(K=3, MaxD=2, Sigma="SigmaS", Names="NamesS", Roots="RootsOA")),
+        ("MC_Safety.tla", "MC_Safety.cfg", _saf(1, 3, "MaxDs12", "SigmaTok", "FillsQ")),
+        ("MC_Verify.tla", "MC_Verify.cfg", dict(K=2, MaxDs="MaxDs123", Sigma="SigmaFull", Deep="FALSE")),
+        ("MC_Nav.tla", "MC_Nav.cfg", _nav(2, 3, "ValsAll", "NamesRich", "LookAB", "OpsTrans", "RootsOA", 10))]),
+    "writer": ("replay_writer", "WBEH ", [("MC_Writer.tla", "MC_Writer.cfg", WRITER_Q),
+                                          ("MC_Writer.tla", "MC_Writer.cfg", dict(K=2, Alpha="AlphaInts", WithReset="FALSE", AllCaps="FALSE"))]),
+    "tostring": ("replay_tostring", "TBEH ", [("MC_ToString.tla", "MC_ToString.cfg", _ts(2, 3, "ValsText", "NamesAB", "TRUE")),
+                                              ("MC_ToString.tla", "MC_ToString.cfg", _ts(2, 2, "ValsWide", "NamesOdd", "FALSE"))]),
+    "class": ("replay_class", "CBEH ", [("MC_Class.tla", "MC_Class.cfg", dict(K=2, Sigma="SigmaC", Families="TRUE"))]),
+}
+C18_CONFIGS = [("gcc-asan-ubsan", "gcc", "-O1 -g -fsanitize=address,undefined -fsanitize-recover=all")] + \
+    [("%s%s%s" % (cc, o, sgn), cc, "%s %s" % (o, sgn)) for cc in ("gcc", "clang") for o in ("-O0", "-O2", "-Os") for sgn in ("-fsigned-char", "-funsigned-char")] + \
+    [("clang-asan-ubsan", "clang", "-O1 -g -fsanitize=address,undefined -fsanitize-recover=all")]
+
+
+def gen_corpus(prop, engine, tier):
+    replayer, prefix, models = C18_CORPUS[engine]
+    odir = os.path.join(OUT, prop, "corpus"); os.makedirs(odir, exist_ok=True)
+    path = os.path.join(odir, engine + ".beh")
+    st_states = st_trans = 0
+    with open(path, "w") as out:
+        for i, (module, base_cfg, overrides) in enumerate(models):
+            cfg = os.path.join(SPEC, "_%s_%s_%d_%d.cfg" % (prop, engine, i, os.getpid()))
+            ov = dict(overrides); ov["EmitOn"] = "TRUE"
+            vlib.mk_cfg(cfg, os.path.join(SPEC, base_cfg), ov)
+            meta = tempfile.mkdtemp(prefix="tlc-", dir=odir)
+            r = subprocess.run("cd %s && timeout 900 %s" % (SPEC, vlib.tlc_cmd(module, os.path.basename(cfg), metadir=meta)), shell=True, capture_output=True, text=True)
+            shutil.rmtree(meta, ignore_errors=True); os.remove(cfg)
+            tl = vlib.parse_tlc_log(r.stdout)
+            if not tl["ok"]:
+                raise Infra("corpus generation: TLC failed on %s: %s" % (module, tl["error"] or tl["violated"]))
+            st_states += tl["distinct"]; st_trans += tl["states"]
+            lines = [l[1:-1] for l in r.stdout.splitlines() if l.startswith('"' + prefix)]
+            # keep the corpus at a size all 14 builds can run quickly: every k-th behaviour, seeded offset
+            cap = 30000 if tier == "quick" else 400000
+            if len(lines) > cap:
+                k = len(lines) // cap + 1
+                lines = lines[vlib.SEED % k::k]
+            out.write("\n".join(lines) + "\n")
+    return path, st_states, st_trans
+
+
+def check_crossbuild(prop, tier, replay):
+    t0 = time.time()
+    base = os.path.join(OUT, prop); shutil.rmtree(base, ignore_errors=True); os.makedirs(base)
+    corp = {}; states = trans = 0
+    for eng in C18_CORPUS:
+        corp[eng], a, b = gen_corpus(prop, eng, tier); states += a; trans += b
+    progs = [C18_CORPUS[e][0] for e in C18_CORPUS]
+
+    def run_config(c):
+        name, cc, flags = c
+        bdir = vlib.build(name, progs, cc=cc, flags=flags, tag="x-" + name)
+        res = {}
+        for eng, (replayer, prefix, _) in C18_CORPUS.items():
+            tdir = os.path.join(base, name); os.makedirs(tdir, exist_ok=True)
+            tr = os.path.join(tdir, eng + ".transcript")
+            env = _env(); env["UBSAN_OPTIONS"] = "print_stacktrace=0:halt_on_error=0"; env["ASAN_OPTIONS"] = "detect_leaks=0:exitcode=66:allocator_may_return_null=1"
+            r = subprocess.run("%s/%s --prop %s --outdir %s --replay %s --transcript %s --summary %s/%s.sum.json --max-report 0"
+                               % (bdir, replayer, prop, tdir, corp[eng], tr, tdir, eng), shell=True, capture_output=True, text=True, env=env)
+            summ = vlib.read_json("%s/%s.sum.json" % (tdir, eng))
+            if summ is None:
+                raise Infra("replayer %s failed in build %s: %s" % (replayer, name, r.stderr[-800:]))
+            ub = len(re.findall(r"runtime error:", r.stderr))
+            ubk = sorted(set(re.findall(r"(\S+:\d+):\d+: runtime error: ([^\n]*)", r.stderr)))[:10]
+            h = hashlib.sha256(open(tr, "rb").read()).hexdigest()
+            res[eng] = {"sha256": h, "behaviours": summ["behaviours"], "calls": summ["calls"], "violations_any": summ["violations_own"] + summ["violations_other"],
+                        "crashes": summ["crashes"], "ub_reports": ub, "ub_kinds": ubk, "transcript": tr}
+        return name, res
+
+    with ThreadPoolExecutor(max_workers=7) as ex:
+        results = dict(ex.map(run_config, C18_CONFIGS))
+    ref_name = C18_CONFIGS[0][0]; ref = results[ref_name]
+    nviol = 0; diffs = []; ub_notes = []
+    for name, res in results.items():
+        for eng, r in res.items():
+            if r["ub_reports"]:
+                ub_notes.append({"build": name, "engine": eng, "reports": r["ub_reports"], "kinds": r["ub_kinds"]})
+            if r["sha256"] != ref[eng]["sha256"]:
+                # first differing behaviour
+                a = open(ref[eng]["transcript"], errors="replace").read().split("\n# ")
+                b = open(r["transcript"], errors="replace").read().split("\n# ")
+                k = next((i for i in range(min(len(a), len(b))) if a[i] != b[i]), min(len(a), len(b)))
+                vf = os.path.join(base, "viol-C18-%s-%s.beh" % (name, eng))
+                with open(vf, "w") as f:
+                    f.write((a[k].split("\n")[0] if k < len(a) else "(missing)") + "\n# property=C18\n# builds: %s vs %s, engine %s\n# reference: %s\n# other:     %s\n"
+                            % (ref_name, name, eng, a[k][:1500] if k < len(a) else "", b[k][:1500] if k < len(b) else ""))
+                nviol += 1; diffs.append((name, eng))
+                print("VIOLATION property=C18 replay=%s" % vf)
+                print("  detail: observable results of build %s differ from %s (engine %s), first at behaviour %d" % (name, ref_name, eng, k))
+    total_beh = sum(r["behaviours"] for r in ref.values())
+    ref_viol = sum(r["violations_any"] for r in ref.values())
+    if ref_viol:
+        print("NOTE the reference build shows %d Layer-A violations on the scenario corpus (reported by the checks of those properties)" % ref_viol)
+    stage = {"stage": "cross-build", "kind": "scenario corpus generated by TLC, executed in %d builds" % len(C18_CONFIGS), "states": states, "transitions": trans,
+             "behaviours_replayed": total_beh * len(C18_CONFIGS), "violations": nviol, "builds": [c[0] for c in C18_CONFIGS],
+             "digests": {e: ref[e]["sha256"] for e in ref}, "differing": diffs, "ub_diagnostics": ub_notes,
+             "reference_layerA_violations": ref_viol,
+             "samples": [open(corp[e]).readline().strip() for e in corp]}
+    # transcripts are large: keep only the reference
+    for name, res in results.items():
+        if name != ref_name and not any(d[0] == name for d in diffs):
+            shutil.rmtree(os.path.join(base, name), ignore_errors=True)
+    return finish(prop, tier, [stage], t0, ["x86-64 only (no 32-bit or ARM toolchain in the sandbox)",
+                                             "the reference transcript is produced by the gcc ASan/UBSan build whose conformance to Layer A is checked by the replayers on the same corpus",
+                                             "UBSan diagnostics are collected (recover mode) and listed, not counted as violations unless an observable differs"])
+
+
+REGISTRY["C18"] = check_crossbuild
